@@ -72,6 +72,45 @@ def _merge_loop(prod: FuncInfo):
     raise AnalysisError("Sweep.product: no statement loop over the operands found")
 
 
+def rule_accumulators_accumulate(ctx: Ctx) -> None:
+    """A value that a loop over the operands is meant to FOLD must be carried from one iteration to the next: an assignment
+    inside the loop that rebuilds it from a loop-invariant start and the current operand (`acc = combine(self.x, other.x)`) keeps
+    the contribution of the LAST operand only."""
+    n = 0
+    for fn in [f for f in ctx.prog.functions.values() if f.module.name == MOD]:
+        for loop in [lp for lp in walk_no_nested(fn.node) if isinstance(lp, ast.For)]:
+            lvars = {x.id for x in ast.walk(loop.target) if isinstance(x, ast.Name)}
+            body_pos = None
+            for blk in [fn.node.body] + [getattr(s_, "body", []) for s_ in ast.walk(fn.node)] + [getattr(s_, "orelse", []) for s_ in ast.walk(fn.node)]:
+                if isinstance(blk, list) and loop in blk:
+                    body_pos = (blk, blk.index(loop))
+            if body_pos is None:
+                continue
+            blk, i = body_pos
+            before, after = blk[:i], blk[i + 1:]
+            for st in loop.body:
+                if not (isinstance(st, ast.Assign) and len(st.targets) == 1 and isinstance(st.targets[0], ast.Name)):
+                    continue
+                acc = st.targets[0].id
+                if acc in lvars:
+                    continue
+                init = [b for b in before if isinstance(b, (ast.Assign, ast.AnnAssign)) and any(isinstance(t, ast.Name) and t.id == acc for t in (b.targets if isinstance(b, ast.Assign) else [b.target]))]
+                used_after = any(isinstance(x, ast.Name) and x.id == acc and isinstance(x.ctx, ast.Load) for a_ in after for x in ast.walk(a_))
+                reads_operand = any(isinstance(x, ast.Name) and x.id in lvars for x in ast.walk(st.value))
+                if not (init and used_after and reads_operand and isinstance(st.value, ast.Call)):
+                    continue
+                # the other statements of the loop body may carry it (acc is read elsewhere in the body before this store)
+                carried = any(isinstance(x, ast.Name) and x.id == acc and isinstance(x.ctx, ast.Load) for s2 in loop.body for x in ast.walk(s2))
+                n += 1
+                # what the fold starts from, re-used in place of the accumulator
+                init_txt = norm(init[-1].value) if init[-1].value is not None else ""
+                restarts = bool(init_txt) and any(norm(a_) == init_txt for a_ in st.value.args)
+                ctx.tri("1-all-operands", fn, st, carried, not carried and restarts, f"`{acc}` is carried through the loop over the operands",
+                        f"`{norm(st)[:70]}` rebuilds `{acc}` from its start value `{init_txt[:30]}` and the current operand in every iteration: only the last operand's contribution survives the loop "
+                        "(with two or more right operands the derived keys / excludes of the ones in between are lost)", f"`{norm(st)[:60]}`: fold not recognised", key=f"fold {fn.name}.{acc}")
+    ctx.add("1-all-operands", MOD, "", True, f"{n} loop-carried value(s) examined", key="fold-scan")
+
+
 def rule_all_operands(ctx: Ctx) -> None:
     prod = ctx.prog.func(f"{MOD}.Sweep.product")
     vararg, loop = _merge_loop(prod)
@@ -455,7 +494,7 @@ def rule_closures_and_names(ctx: Ctx) -> None:
 
 
 def check(ctx: Ctx) -> None:
-    for rule in (rule_all_operands, rule_reads_dims, rule_len_mirror, rule_arms, rule_shape, rule_pure, rule_derivers_kept, rule_closures_and_names):
+    for rule in (rule_all_operands, rule_accumulators_accumulate, rule_reads_dims, rule_len_mirror, rule_arms, rule_shape, rule_pure, rule_derivers_kept, rule_closures_and_names):
         ctx.run(rule)
 
 
